@@ -7,6 +7,7 @@ about *values*: it uses only event order, provenance serials and the
 look-ahead each element documents.  See DESIGN.md section 3, C02.
 """
 import gc
+import operator
 
 import lena.core
 import lena.flow
@@ -56,13 +57,54 @@ EXPECTED_PROBES = ["empty-negative-slice", "negative-start-positive-stop-long-fl
 CALLISH = ("call", "variable", "print", "context", "updatecontext", "makefilename", "mark")
 
 
+class _TapIter(object):
+    """the tap as an iterator object that passes the length hint of its input on"""
+
+    def __init__(self, tap, flow, inv):
+        self.tap = tap
+        self.flow = iter(flow)
+        self.inv = inv
+        self.done = False
+
+    def __iter__(self):
+        return self
+
+    def __next__(self):
+        try:
+            v = next(self.flow)
+        except StopIteration:
+            if not self.done:
+                self.done = True
+                self.tap.log.ev("tap-end", self.tap.name, self.inv)
+            raise
+        t = tok_of(v)
+        self.tap.log.ev("tap", self.tap.name, self.inv, t.serial, t.tag)
+        return v
+
+    def __length_hint__(self):
+        return operator.length_hint(self.flow)
+
+    def close(self):
+        # as a suspended generator does when it is closed: let go of the input
+        self.flow = iter(())
+
+
 class Tap(object):
+    hinted = False
+
     def __init__(self, log, name):
         self.log = log
         self.name = name
         self.inv = 0
 
     def run(self, flow):
+        if self.hinted:
+            inv = self.inv
+            self.inv += 1
+            return _TapIter(self, flow, inv)
+        return self._run(flow)
+
+    def _run(self, flow):
         inv = self.inv
         self.inv += 1
         ev = self.log.ev
@@ -181,6 +223,7 @@ def gen_nodes(tape, prefix, n, infinite, depth, counter):
             node = Node(kind, name, mask=gen_mask(tape, False), ninner=tape.draw(3, "runif-inner"))
         elif kind == "split":
             bufs = [2, 1, 3, 5] if infinite else [2, 1, 3, 5, None]
+            bufs = bufs + [10]
             node = Node(kind, name, bufsize=tape.choice(bufs, "bufsize"),
                         copy_buf=not tape.chance(1, 4, "copy-buf-off"))
             nb = 1 + tape.draw(3, "nbranches")
@@ -441,7 +484,9 @@ def gen_scenario(tape):
     # source: the flow comes from a callable first element; source-iterable: from an iterable
     # (non-callable) first element
     sc.form = tape.choice(["sequence", "source", "source-iterable", "source-iterator",
-                           "sequence-sized-iterable", "source-sized-iterable"], "form")
+                           "sequence-sized-iterable", "source-sized-iterable", "source-chain"], "form")
+    # the input (and the taps on the element boundaries) can tell how many values remain
+    sc.hinted = tape.chance(1, 4, "input-has-a-length-hint")
     if sc.infinite and sc.form.endswith("sized-iterable"):
         sc.form = sc.form.replace("-sized-iterable", "") if sc.form.startswith("sequence") else "source-iterable"
     sc.with_context = bool(tape.draw(2, "with-context"))
@@ -536,6 +581,8 @@ def execute(sc, res, fault_at, log):
                 o.max_copies = c
             return orig_make(i)
         src.make = make_and_measure
+    src.hinted = bool(getattr(sc, "hinted", False))
+    Tap.hinted = src.hinted
     try:
         els = [Tap(log, "in")] + build(sc.nodes, log, "in", printed)
         log.ev("build")
@@ -543,6 +590,9 @@ def execute(sc, res, fault_at, log):
             gen = lena.core.Sequence(*els).run(src)
         elif sc.form == "source-iterable":
             gen = lena.core.Source(LazyIterable(src), *els)()
+        elif sc.form == "source-chain":
+            # lena.flow.Chain over a one-shot iterator as the first element of a Source
+            gen = lena.core.Source(lena.flow.Chain(PlainIterator(src)), *els)()
         elif sc.form == "sequence-sized-iterable":
             gen = lena.core.Sequence(*els).run(SizedIterable(src, sc.n))
         elif sc.form == "source-sized-iterable":
